@@ -3,9 +3,87 @@
 
 package exec
 
-import "github.com/grailbio/bigslice/internal/simhook"
+import (
+	"bytes"
+	"encoding/gob"
+	"sync"
+
+	"github.com/grailbio/bigslice/internal/simhook"
+)
 
 // Verification accessors (build tag verif). They add no behaviour.
 
 // VerifSetYield installs the simulator's yield hook.
 func VerifSetYield(f func(point, key string)) { simhook.Hook = f }
+
+var (
+	verifMu      sync.Mutex
+	verifWorkers []*worker
+)
+
+func verifWorkerInit(w *worker) {
+	verifMu.Lock()
+	verifWorkers = append(verifWorkers, w)
+	verifMu.Unlock()
+}
+
+// VerifResultTasks returns the root tasks of a result.
+func VerifResultTasks(r *Result) []*Task { return r.tasks }
+
+// VerifWorkerGraphs returns, for every worker instance created in this
+// process, its compiled task tables by invocation index.
+func VerifWorkerGraphs() []map[uint64]map[TaskName]*Task {
+	verifMu.Lock()
+	ws := append([]*worker(nil), verifWorkers...)
+	verifMu.Unlock()
+	out := make([]map[uint64]map[TaskName]*Task, len(ws))
+	for i, w := range ws {
+		w.mu.Lock()
+		m := make(map[uint64]map[TaskName]*Task, len(w.tasks))
+		for inv, named := range w.tasks {
+			c := make(map[TaskName]*Task, len(named))
+			for n, t := range named {
+				c[n] = t
+			}
+			m[inv] = c
+		}
+		w.mu.Unlock()
+		out[i] = m
+	}
+	return out
+}
+
+// VerifRecompile compiles the invocation of task t again, optionally after a
+// gob round trip of the invocation (as it travels to workers).
+func VerifRecompile(t *Task, machineCombiners, gobTrip bool) ([]*Task, error) {
+	inv := t.Invocation
+	if gobTrip {
+		// As bigmachineExecutor.addInvocation does: *Result arguments travel
+		// as invocation references.
+		enc := inv
+		enc.Args = append([]interface{}(nil), inv.Args...)
+		for i, arg := range enc.Args {
+			if r, ok := arg.(*Result); ok {
+				enc.Args[i] = invocationRef{r.invIndex}
+			}
+		}
+		var b bytes.Buffer
+		if err := gob.NewEncoder(&b).Encode(enc); err != nil {
+			return nil, err
+		}
+		var dec execInvocation
+		if err := gob.NewDecoder(&b).Decode(&dec); err != nil {
+			return nil, err
+		}
+		for i, arg := range dec.Args {
+			if _, ok := arg.(invocationRef); ok {
+				dec.Args[i] = inv.Args[i]
+			}
+		}
+		inv = dec
+	}
+	return compile(inv, inv.Invoke(), machineCombiners)
+}
+
+// VerifMachineCombiners reports the session's machine-combiner setting.
+func VerifMachineCombiners(s *Session) bool { return s.machineCombiners }
